@@ -21,17 +21,22 @@ def numsys_class(name):
     return getattr(_eqsys, "NumSys" + name)
 
 
-def build_system(species, nu, consts):
+def build_system(species, nu, consts, spform="comp"):
     """species: [{'name', 'comp': [[key, n], ...], optional 'solid': bool}], nu: rows over species,
-    consts: one parameter per reaction (any number type).  Returns (EqSystem, names)."""
+    consts: one parameter per reaction (any number type).  spform "comp": Species(name, charge,
+    composition=...), "formula": Species.from_formula(name) (the name is a formula of the same
+    composition).  Returns (EqSystem, names)."""
     from chempy import Species, Equilibrium
     from chempy.equilibria import EqSystem
     subs, names = [], []
     for sp in species:
-        comp = {int(k): int(n) for k, n in sp["comp"] if int(k) != 0}
-        charge = sum(int(n) for k, n in sp["comp"] if int(k) == 0)
-        kw = {"phase_idx": 1} if sp.get("solid") else {}
-        subs.append(Species(sp["name"], charge, composition=comp, **kw))
+        if spform == "formula":
+            subs.append(Species.from_formula(sp["name"]))
+        else:
+            comp = {int(k): int(n) for k, n in sp["comp"] if int(k) != 0}
+            charge = sum(int(n) for k, n in sp["comp"] if int(k) == 0)
+            kw = {"phase_idx": 1} if sp.get("solid") else {}
+            subs.append(Species(sp["name"], charge, composition=comp, **kw))
         names.append(sp["name"])
     eqs = []
     for row, k in zip(nu, consts):
@@ -39,6 +44,13 @@ def build_system(species, nu, consts):
         prod = {names[j]: int(v) for j, v in enumerate(row) if int(v) > 0}
         eqs.append(Equilibrium(reac, prod, k))
     return EqSystem(eqs, subs), names
+
+
+def reorder(inp_species, nu, vectors, order):
+    """species order option: "asc" as emitted, "rev" reversed (columns of nu and every per-species vector)"""
+    if order != "rev":
+        return inp_species, nu, vectors
+    return inp_species[::-1], [row[::-1] for row in nu], [v[::-1] for v in vectors]
 
 
 def frac(p):
@@ -113,11 +125,12 @@ def roundtrip_error(ns, y, conc, params):
 
 
 def classify_residual(f, tolz, tolnz):
-    """50 digit evaluation; 'zero' iff all |f_i| < 10^-tolz, 'nonzero' iff some |f_i| > 10^-tolnz"""
+    """50 digit evaluation (floats as they are); 'zero' iff all |f_i| < 10^-tolz, 'nonzero' iff some
+    |f_i| > 10^-tolnz"""
     import sympy
     mags = []
     for fi in f:
-        v = sympy.N(fi, 50)
+        v = sympy.N(fi, 50) if isinstance(fi, sympy.Basic) else sympy.Float(float(fi))
         if v.is_real is False or v.has(sympy.nan) or v.has(sympy.zoo):
             return "undefined", None
         mags.append(abs(float(v)))
